@@ -63,7 +63,7 @@ NoCrash == ~crashed
 \* tokens in use = tracked seeds, up to calls that are between their two steps
 TokenAccounting == tokens = Cardinality(table) + Cardinality(InStore) + Cardinality(InRelease)
 Bound == Cardinality(table) <= Max /\ tokens <= Max
-FeedbackNeverBlocks == \A c \in Callers : pc[c] = "fb.sel" => (ctxDone \/ frozen \/ inputClosed \/ Len(input) < Max)
+FeedbackNeverBlocks == \A c \in Callers : pc[c] = "fb.sel" => (ctxDone \/ frozen \/ inputClosed \/ Len(input) < InputCap)
 FinishNeverBlocks == \A c \in Callers : pc[c] = "fin.rel" => tokens > 0
 \* nothing is accepted by a call that started after Freeze/Stop returned
 AfterFreeze == \A c \in Callers : (pc[c] = "ret" /\ res[c] = "nil" /\ op[c].kind \in {"insert", "feedback"}) => ~after[c]
